@@ -81,7 +81,7 @@ def run_property(run, oracle, nhist, length, rule, sanitize=None, extra_historie
         len(hs), compared, sum(1 for r in res if r["declined"] or r["panic"])), corr_ok, detail)
     extra_bad = getattr(run, "api_exp", None)
     if hasattr(run, "api_exp"):
-        run.obligation("API-level stage (real clock expiry sweep / HTTP status mapping through the API harness)", extra_bad is None, extra_bad[1] if extra_bad else "")
+        run.obligation(getattr(run, "api_label", "API-level stage (real clock expiry sweep / HTTP status mapping through the API harness)"), extra_bad is None, extra_bad[1] if extra_bad else "")
         if extra_bad:
             run.violation("oracle:" + extra_bad[0], extra_bad[1], {"kind": "api", "ops": extra_bad[2], "why": extra_bad[1]}, True)
     # property oracle on the implementation's own output
